@@ -330,6 +330,7 @@ type wheelInst struct {
 	skeys   bool
 	react   map[string][]any
 	rmu     sync.Mutex
+	dmu     sync.Mutex
 	reacted [][]any
 }
 
@@ -412,7 +413,7 @@ func (w *wheelInst) reactTo(x int64) {
 	case "remove":
 		w.tw.RemoveTimer(w.key(op[1]))
 	case "drain":
-		w.tw.Drain(w.drained)
+		w.tw.Drain(w.drainedQuiet)
 	}
 }
 
@@ -434,9 +435,27 @@ func (w *wheelInst) record(k, v any) {
 	}
 }
 
-// Drain hands its callbacks to a bounded runner (8 at a time) from inside the run loop: they
-// are gated too (the generator holds fewer than 8 values), but do not call back
+// Drain hands its callbacks to a bounded runner (8 at a time): they are gated too (the generator
+// holds fewer than 8 values) and they call back into the wheel like the tick callbacks do
+// (cache/cleaner.go's clean re-arms a failed task from the shutdown Drain).  The callbacks of
+// one Drain run concurrently; their calls into the wheel are made one at a time (dmu), so
+// that the order recorded is the order in which the wheel received them.
 func (w *wheelInst) drained(k, v any) {
+	x := unval(v)
+	w.fs.add(w.unkey(k), x)
+	w.gt.wait(x)
+	if _, ok := w.react[strconv.FormatInt(x, 10)]; ok {
+		w.dmu.Lock()
+		w.reactTo(x)
+		w.dmu.Unlock()
+	}
+	if x%1000 == 999 {
+		panic("verif: callback panics")
+	}
+}
+
+// the callbacks of a Drain that was itself called from a callback do not call back
+func (w *wheelInst) drainedQuiet(k, v any) {
 	x := unval(v)
 	w.fs.add(w.unkey(k), x)
 	w.gt.wait(x)
